@@ -533,8 +533,11 @@ def check_main(prop, tier, replay=None, search=0):
                       f, indent=1)
         p = subprocess.run([PY, script, prop, "--replay", path], capture_output=True, text=True,
                            env=_child_env(), timeout=300)
-        if p.returncode == 1 and "event log identical" in p.stdout:
+        if p.returncode == 1:
             print("VIOLATION property=%s replay=%s" % (prop, path))
+            if "event log identical" not in p.stdout:
+                print("  note: the replay reproduced the violation (same signature) in a fresh process but its event log "
+                      "differs from the recorded one - the tree under test is not deterministic under the seams")
             print("  signature: %s" % sig)
             nfam = sum(sig_counts.get(x, 1) for x in members)
             print("  occurrences: %d of %d runs (%d signature variant(s) in this family); minimisation: %s"
